@@ -43,6 +43,17 @@ DECKS = [
     # the same with a two-surface container and other numbers
     ('wallfill2', 'wall fill deck two\n4 0 -3 5 fill=2 (0 1 0) imp:n=1\n5 0 3 imp:n=1\n6 0 -5 imp:n=0\n7 1 -2.7 -7 u=2 imp:n=1\n8 2 -1.0 7 -8 u=2 imp:n=1\n'
                   '9 0 8 u=2 imp:n=1\n\n3 py 4\n5 py -6\n7 py 3\n8 py 9\n\nm1 13027 1\nm2 8016 1\n', []),
+    # one material at many densities, some of them the same number in another spelling (ordering of sets of strings)
+    ('densities', 'densities deck\n1 1 -2.7 -1 imp:n=1\n2 1 -0.27e1 1 -2 imp:n=1\n3 1 -27.e-1 2 -3 imp:n=1\n4 1 -1.5 3 -4 imp:n=1\n'
+                  '5 1 -11.34 4 -5 imp:n=1\n6 1 0.05 5 -6 imp:n=1\n7 2 -7.8 6 -7 imp:n=1\n8 2 -0.78e1 7 -8 imp:n=1\n9 0 8 imp:n=0\n\n'
+                  '1 so 1\n2 so 2\n3 so 3\n4 so 4\n5 so 5\n6 so 6\n7 so 7\n8 so 8\n\nm1 13027 1\nm2 26056 1\n', []),
+    # two hexagonal lattices whose side planes have the same normals and another pitch (memoised geometry helpers)
+    ('hexa', 'hex deck a\n1 0 -1 fill=1 imp:n=1\n2 0 1 imp:n=0\n10 0 -11 -12 -13 -14 -15 -16 lat=2 u=1 fill=-1:1 -1:1 0:0 7 8 7 8 7 8 7 8 7 imp:n=1\n'
+             '21 1 -2.7 -21 u=7 imp:n=1\n22 0 21 u=7 imp:n=1\n31 0 -21 u=8 imp:n=1\n32 1 -2.7 21 u=8 imp:n=1\n\n1 so 9\n'
+             '11 p 0 2 0 4\n12 p 0 -2 0 4\n13 p 2 2 0 8\n14 p -2 -2 0 0\n15 p -2 0 0 0\n16 p 2 0 0 8\n21 pz 0\n\nm1 13027 1\n', []),
+    ('hexb', 'hex deck b\n1 0 -1 fill=1 imp:n=1\n2 0 1 imp:n=0\n10 0 -11 -12 -13 -14 -15 -16 lat=2 u=1 fill=-1:1 -1:1 0:0 7 8 7 8 7 8 7 8 7 imp:n=1\n'
+             '21 1 -2.7 -21 u=7 imp:n=1\n22 0 21 u=7 imp:n=1\n31 0 -21 u=8 imp:n=1\n32 1 -2.7 21 u=8 imp:n=1\n\n1 so 9\n'
+             '11 p 0 2 0 2\n12 p 0 -2 0 2\n13 p 2 2 0 4\n14 p -2 -2 0 0\n15 p -2 0 0 0\n16 p 2 0 0 4\n21 pz 0\n\nm1 13027 1\n', []),
     # 6 a deck that raises (unknown surface type)
     ('raises', 'bad deck\n1 0 -1 imp:n=1\n2 0 1 imp:n=0\n\n1 qq 5\n\n', []),
 ]
